@@ -39,11 +39,20 @@ package config
 //@   assigns nothing
 
 // "exactly the sub-packages that contain Go files": the filter applied to the loader's result.
+// goCnt(p, j): how many of p[0..j) have Go files; the j-th package with Go files lands at that index of
+// the result (so the result is exactly the subsequence of packages with Go files, in order). The step
+// equation defines goCnt; monotonicity follows from it by induction and is assumed as a lemma.
+//@ spec goCnt(p []*packages.Package, j int) int
+//@ axiom gocnt_zero: forall p []*packages.Package :: goCnt(p, 0) == 0
+//@ axiom gocnt_step: forall p []*packages.Package, j int :: 0 <= j && j < len(p) ==> goCnt(p, j + 1) == goCnt(p, j) + (len(p[j].GoFiles) != 0 ? 1 : 0)
+//@ axiom gocnt_mono: forall p []*packages.Package, j int, k int :: 0 <= j && j <= k && k <= len(p) ==> goCnt(p, j) <= goCnt(p, k)
 //@ closure (*RootConfig).subPackages#0 props=C07
 //@   ensures#only forall i int :: 0 <= i && i < len(result) ==> (exists j int :: 0 <= j && j < len(pkgs) && len(pkgs[j].GoFiles) != 0 && result[i] == pkgs[j].PkgPath)
-//@   ensures#all forall j int :: 0 <= j && j < len(pkgs) && len(pkgs[j].GoFiles) != 0 ==> (exists i int :: 0 <= i && i < len(result) && result[i] == pkgs[j].PkgPath)
+//@   ensures#all forall j int :: 0 <= j && j < len(pkgs) && len(pkgs[j].GoFiles) != 0 ==> goCnt(pkgs, j) < len(result) && result[goCnt(pkgs, j)] == pkgs[j].PkgPath
+//@   ensures#count len(result) == goCnt(pkgs, len(pkgs))
 //@   loop 0: invariant forall i int :: 0 <= i && i < len(paths) ==> (exists j int :: 0 <= j && j < $i && len(pkgs[j].GoFiles) != 0 && paths[i] == pkgs[j].PkgPath)
-//@   loop 0: invariant forall j int :: 0 <= j && j < $i && len(pkgs[j].GoFiles) != 0 ==> (exists i int :: 0 <= i && i < len(paths) && paths[i] == pkgs[j].PkgPath)
+//@   loop 0: invariant#count len(paths) == goCnt(pkgs, $i) && 0 <= $i
+//@   loop 0: invariant#at forall j int :: 0 <= j && j < $i && len(pkgs[j].GoFiles) != 0 ==> goCnt(pkgs, j) < len(paths) && paths[goCnt(pkgs, j)] == pkgs[j].PkgPath
 //@   assigns nothing
 
 // "for each selected interface exactly one mock is produced per entry of its configs list (one if
